@@ -43,7 +43,8 @@ def encode_ranks(rng, dense, how=None):
     elif how == "mixed":
         vals = {l: (float(l) if rng.random() < 0.5 else l) for l in levels}
     elif how == "neg":
-        vals = {l: l - len(levels) - rng.randint(0, 3) for l in levels}
+        off = len(levels) + rng.randint(0, 3)
+        vals = {l: l - off for l in levels}
     elif how == "big":
         base = rng.choice([2 ** 53, 2 ** 60, 10 ** 18])
         vals = {l: (base + l if rng.random() < 0.7 else float(base) + 4096.0 * l) for l in levels}
